@@ -31,7 +31,8 @@ RULE = ("pattern copies sharing atoms: hetero chains A-B-A-B-.. with unequal / e
         "on a common edge, a 4-ring, disjoint copies; random rigid pose and origin (also across cell faces) in "
         "orthorhombic / triclinic / rotated cells, bystander atoms; replacement: every subset of search atoms retained, "
         "the others dropped, swapped for another element, or kept as the same element NUDGED by 1e-4..0.03 A (not shared by the "
-        "documented 1e-5 A rule although within the search tolerance), optional extra atom, EMPTY replacement; replace_all on/off; "
+        "documented 1e-5 A rule although within the search tolerance), optional extra atom, EMPTY replacement (plain Atoms(); the search pattern with every atom deleted; zero atoms + type tables; "
+        "+ pair / bond coefficient tables); replace_all on/off; "
         "ignore flag on/off; fraction 1 or < 1; atol in {.05, .02, .1}; return_num_matches on/off. Thorough: every template x every retained subset x drop/swap x extra x both "
         "flags. Non-trivial = distinct input with >= 2 selected matches that share at least one atom.")
 
@@ -168,7 +169,8 @@ def replacement_for(rng, pat, retain, other="drop", extra=False):
     return [elems[i] for i in order], [pos[i] for i in order]
 
 
-def make_case(rng, kind=None, ncopies=None, retain=None, other=None, extra=None, replace_all=None, ignore=None, f=None):
+def make_case(rng, kind=None, ncopies=None, retain=None, other=None, extra=None, replace_all=None, ignore=None, f=None,
+              empty=None):
     kind = kind or rng.choice(KINDS)
     ncopies = ncopies or rng.randint(2, MAXCOPIES[kind])
     st = build(rng, kind, ncopies)
@@ -186,17 +188,21 @@ def make_case(rng, kind=None, ncopies=None, retain=None, other=None, extra=None,
         sj["terms"]["bond"] = [{"a": rng.sample(range(n), 2), "ty": 0, "x": []} for _ in range(rng.randint(1, 4))]
         sj["terms"]["angle"] = [{"a": rng.sample(range(n), 3), "ty": 0, "x": []} for _ in range(rng.randint(0, 2))]
     pj = g.pattern_json(pe, pp)
-    if rng.random() < 0.2:
+    if rng.random() < 0.2 if empty is None else empty:
         relems, rpos = [], []          # empty replacement: pure removal, never an overlap error
     rj = g.pattern_json(relems, rpos, charges=[1000 + i for i in range(len(relems))], groups=[5] * len(relems))
+    rj_src, ekind = None, "-"
+    if not relems:
+        # EMPTY of every kind: Atoms(), the search pattern with all atoms deleted, zero atoms + type (+ coefficient) tables
+        rj, rj_src, ekind = g.empty_replacement(rng, pj, empty if isinstance(empty, str) else None)
     if f is None:
         f = 1.0 if rng.random() < 0.8 else rng.choice([0.5, 0.67, 0.75, 0.34])
     return {"op": "replace-c07", "sj": sj, "pj": pj, "rj": rj, "atol": rng.choice([0.05, 0.05, 0.05, 0.02, 0.1]), "f": f,
-            "return_num": bool(rng.random() >= 0.15),
+            "return_num": bool(rng.random() >= 0.15), "rj_src": rj_src,
             "replace_all": bool(rng.random() < 0.3 if replace_all is None else replace_all),
             "ignore": bool(rng.random() < 0.4 if ignore is None else ignore), "seed": rng.randrange(1 << 30),
             "info": {"kind": kind, "copies": ncopies, "retain": sorted(retain), "other": other, "extra": bool(extra),
-                     "r_atoms": len(relems)}}
+                     "r_atoms": len(relems), "empty_kind": ekind}}
 
 
 # ------------------------------------------------------------------ the property on the real result
@@ -277,7 +283,7 @@ def tags_of(inp, out):
     i = inp["info"]
     t = ["kind:" + i["kind"], "copies:%d" % i["copies"], "retain:%s" % "".join(str(j) for j in i["retain"]) if i["retain"] else "retain:none",
          "other:" + i["other"], "extra:%s" % i["extra"], "replace_all:%s" % inp["replace_all"], "ignore:%s" % inp["ignore"],
-         "r_empty:%s" % (i["r_atoms"] == 0), "f:%s" % ("1" if inp["f"] >= 1 else "<1"), "atol:%g" % inp["atol"],
+         "r_empty:%s" % (i["r_atoms"] == 0), "empty-kind:%s" % i.get("empty_kind", "-"), "f:%s" % ("1" if inp["f"] >= 1 else "<1"), "atol:%g" % inp["atol"],
          "return_num_matches:%s" % inp.get("return_num", True)]
     if out.get("used") is not None:
         t.append("selected:%d" % len(out["used"]))
@@ -347,6 +353,11 @@ def run(ctx, oracle_only=False, scale=1):
                 inps.append(make_case(rng, kind, 2, retain, "drop", retain == [], False, ig, 1.0))
                 inps.append(make_case(rng, kind, 3, retain, "swap", False, False, ig, 1.0))
                 inps.append(make_case(rng, kind, 2, retain, "nudge", False, False, ig, 1.0))
+    # an EMPTY replacement of every kind on overlapping matches, both flags: never an overlap error
+    for kind in ("chain", "star2", "homo", "ring", "edge"):
+        for ek in ("plain", "deleted-search", "tables", "tables+coeffs"):
+            for ig in (False, True):
+                inps.append(make_case(rng, kind, 2, [], "drop", False, rng.random() < 0.3, ig, 1.0, empty=ek))
     if ctx.tier != "quick":
         inps += systematic(rng)
     procs = 1 if len(inps) <= 1500 else max(1, min(8, (os.cpu_count() or 2) // 2))
